@@ -5,6 +5,7 @@ and report the violations of the property the calling check stands for."""
 import json
 import os
 import random
+import re
 
 import histories
 import mcgen
@@ -34,46 +35,35 @@ def module_path(theory):
     return os.path.join(theories.GEN_OUT, theory + ".eql.rs")
 
 
-def classify_known(prop, viol, hist, theory, kfs):
-    """returns the known-finding record that explains this violation, or None"""
-    for kf in kfs:
-        if kf.get("kind") != "known" or prop not in kf.get("properties", [kf.get("property")]):
-            continue
-        c = kf["classifier"]
-        if "theories" in c and theory not in c["theories"]:
-            continue
-        if "what_contains" in c and not any(w in viol["what"] for w in c["what_contains"]):
-            continue
-        if "history" in c and not history_matches(c["history"], hist):
-            continue
-        return kf
-    return None
-
-
-def history_matches(pat, hist):
-    steps = hist["steps"]
-    ops = [s["op"] for s in steps]
-    if pat == "early_return_then_close":
-        # a close_until that may stop early (stop >= 0 or a condition) is followed by another close
-        for i, s in enumerate(steps):
-            if s["op"] == "close_until" and (s.get("stop", -1) >= 0 or s.get("cond")):
-                if any(o in ("close", "close_until") for o in ops[i + 1:]):
-                    return True
+def static_match(prop, viol, hist, theory, sig, kf):
+    if kf.get("kind") != "known" or prop not in kf.get("properties", []):
         return False
-    if pat == "morphism_fact_after_close":
-        seen_close = False
-        for s in steps:
-            if s["op"] in ("close", "close_until"):
-                seen_close = True
-            elif seen_close and s["op"] in ("insert", "define", "equate", "new"):
-                return True
+    c = kf["classifier"]
+    if c.get("needs_model") and not sig.models:
         return False
-    if pat == "any":
-        return True
-    raise vlib.ToolError(f"unknown history pattern {pat}")
+    if "theories" in c and theory not in c["theories"]:
+        return False
+    if "what_regex" in c and not re.search(c["what_regex"], viol["what"]):
+        return False
+    return True
 
 
-def run(prop, tier, replay, make_plan, level="model_checking", panic_props=("C01",), explanation=""):
+def counterfactual_history(kind, sig, steps):
+    """the history rewritten so that the known defect's trigger is absent"""
+    if kind == "morphism_facts_first":
+        # all dom/cod facts directly after the creation prefix, i.e. before any close and before any
+        # member fact: the morphism graph is complete when the first tuple arrives
+        i = 0
+        while i < len(steps) and steps[i]["op"] in ("new", "define", "new_enum"):
+            i += 1
+        pre, rest = steps[:i], steps[i:]
+        mor = [s for s in rest if s["op"] == "insert" and re.search(r"_mor_(dom|cod)$", s["rel"])]
+        other = [s for s in rest if not (s["op"] == "insert" and re.search(r"_mor_(dom|cod)$", s["rel"]))]
+        return pre + mor + other
+    raise vlib.ToolError(f"unknown counterfactual {kind}")
+
+
+def run(prop, tier, replay, make_plan, level="model_checking", panic_props=("C01",), explanation="", also_props=()):
     v = vlib.Verdict(prop, tier, level)
     ths = theories.prepare()
     rnd = random.Random(vlib.seed())
@@ -86,6 +76,15 @@ def run(prop, tier, replay, make_plan, level="model_checking", panic_props=("C01
     else:
         plan = make_plan(ths, tier, rnd)
     kfs = vlib.known_findings()
+    if replay is None:
+        # the pinned witnesses of recorded and repaired findings of this property are always run
+        wfam = 10 ** 6
+        for kf in kfs:
+            w = kf.get("witness")
+            if prop in kf.get("properties", []) and isinstance(w, dict) and "members" in w and w["theory"] in ths:
+                wfam += 1
+                for steps in w["members"]:
+                    plan.add(w["theory"], steps, wfam)
     states = plan.gen_states
     transitions = plan.gen_transitions
     ntraces = 0
@@ -116,19 +115,57 @@ def run(prop, tier, replay, make_plan, level="model_checking", panic_props=("C01
         if rows:
             samples.append({"theory": theory, "steps": rows[len(rows) // 2]["steps"]})
         byid = {row["id"]: row for row in rows}
-        reported = set()
+        mine = []
         for viol in res["viol"]:
             p = viol["prop"]
-            if p == "PANIC":
-                if prop not in panic_props:
-                    continue
-            elif p != prop:
-                continue
+            if (p == "PANIC" and prop in panic_props) or p == prop or p in also_props:
+                mine.append(viol)
+        # known findings: static part of the classifier, then (where the finding defines one) the
+        # counterfactual run - the rewritten history must be free of violations of this property
+        pending = []      # (viol, kf) waiting for the counterfactual verdict
+        verdicts = []     # (viol, kf or None)
+        for viol in mine:
             hist = byid[viol["id"]]
-            key = (viol["id"], viol["what"])
-            kf = classify_known(prop, viol, hist, theory, kfs)
+            kf = next((k for k in kfs if static_match(prop, viol, hist, theory, sig, k)), None)
+            if kf is not None and "counterfactual" in kf["classifier"]:
+                pending.append((viol, kf))
+            else:
+                verdicts.append((viol, kf))
+        if pending:
+            cf_rows = []
+            cf_of = {}
+            for viol, kf in pending:
+                key = (viol["id"], kf["id"])
+                if key in cf_of:
+                    continue
+                cf_of[key] = len(cf_rows) + 1
+                hist = byid[viol["id"]]
+                fam_first = [h2 for h2 in rows if hist["fam"] >= 0 and h2["fam"] == hist["fam"] and h2["id"] < hist["id"]][:1]
+                # a family violation is re-evaluated against the same first member
+                base = len(cf_rows) + 1
+                for h2 in fam_first:
+                    cf_rows.append({"id": len(cf_rows) + 1, "theory": theory, "fam": base,
+                                    "steps": counterfactual_history(kf["classifier"]["counterfactual"], sig, h2["steps"])})
+                cf_of[key] = len(cf_rows) + 1
+                cf_rows.append({"id": len(cf_rows) + 1, "theory": theory, "fam": base if fam_first else -1,
+                                "steps": counterfactual_history(kf["classifier"]["counterfactual"], sig, hist["steps"])})
+            d2 = vlib.workdir(f"{prop.lower()}-{theory}-cf")
+            vlib.write_ndjson(os.path.join(d2, "histories.ndjson"), cf_rows)
+            r2 = vlib.run([os.path.join(vlib.BIN, "model-driver"), os.path.join(d2, "histories.ndjson"), os.path.join(d2, "trace.ndjson")], timeout=1800)
+            if r2.returncode != 0:
+                raise vlib.ToolError(f"model-driver failed on {theory} (counterfactual): {r2.stderr[-2000:]}")
+            res2 = mcgen.validate_api_trace(theory, sig, stages, module_path(theory), os.path.join(d2, "trace.ndjson"),
+                                            f"{prop.lower()}-{theory}-cfmon", maxels=plan.maxels.get(theory, 9))
+            states += res2["_states"]
+            transitions += res2["_generated"]
+            bad_cf = {x["id"] for x in res2["viol"] if x["prop"] == prop or x["prop"] in also_props or (x["prop"] == "PANIC" and prop in panic_props)}
+            for viol, kf in pending:
+                verdicts.append((viol, kf if cf_of[(viol["id"], kf["id"])] not in bad_cf else None))
+        reported = set()
+        for viol, kf in verdicts:
+            hist = byid[viol["id"]]
             if kf is not None:
-                v.known_finding(kf, f"(theory {theory}: {viol['what']})")
+                v.known_finding(kf, f"(e.g. theory {theory}: {viol['what']})")
                 continue
             if viol["id"] in reported:
                 continue
